@@ -85,16 +85,6 @@ def snapshot (c : Case) (prevFutured : List Ck) (st : St) : Json := Json.mkObj [
   ("dispatched", natsJ (st.futured.drop prevFutured.length)),
   ("tables", tablesJ c.wf.g.nodes st.ns)]
 
-/-- the loop with the pre-repair dispatch rule (documentation / regression of D11) -/
-def afterPollOld (wf : Wf) (k : Option Nat) (sorted : List NodeId) (st : St) : Step :=
-  if !st.tasks.isEmpty || !st.futures.isEmpty then .cont (dispatchOld st) else
-  let a := anyNotDone st.w st.ns wf.g.nodes
-  let st1 := { st with ns := a.2 }
-  if !a.1 then .done (finish wf st1) st1 else
-  match stallLoop wf k sorted 11 st1 with
-  | none => .done (if !st1.errors.isEmpty then .failed st1.errors else .stall) st1
-  | some st2 => .cont (dispatchOld st2)
-
 def stepFrom (c : Case) (sorted : List NodeId) (st : St) : Step :=
   if c.old then afterPollOld c.wf c.k sorted (doPoll c.wf c.k sorted st)
   else afterPoll c.wf c.k sorted (doPoll c.wf c.k sorted st)
